@@ -93,7 +93,12 @@ def real_denotation(c: bytes) -> float:
             rest = c[2 + el :]
         e = int.from_bytes(eb, "big", signed=True)
         m = int.from_bytes(rest, "big")
-        return sign * m * (2.0**scale) * (float(base) ** e)
+        # base is a power of two: scale exactly with ldexp (no overflow error, correct rounding to inf / 0)
+        shift = e * {2: 1, 8: 3, 16: 4}[base] + scale
+        try:
+            return sign * math.ldexp(float(m), shift)
+        except OverflowError:
+            return sign * math.inf
     if f & 0xC0 == 0x40:
         return {0x40: math.inf, 0x41: -math.inf, 0x42: math.nan, 0x43: -0.0}[f]
     return float(c[1:].decode("ascii").strip())
